@@ -256,6 +256,26 @@ Proof.
   cbn [own_attrs_ok andb]. apply forallb_forall. intros [n' a' cs'|t|] _; reflexivity.
 Qed.
 
+(* inputs of the hunters' findings f3 / f5 / f6 (repaired by the patches C02-2..4) are inside the
+   theorem's domain - no hypothesis is needed for them:
+   <presence><priority>5</priority><priority xmlns='urn:example:ticket'>high</priority></presence>
+   <a xmlns='urn:xmpp:sm:3' h='7' e:h='seven'/>
+   <presence><x xmlns='...muc'><history xmlns='urn:example:ext' seconds='many'/>
+                                <history maxstanzas='20' e:seconds='all'/></x></presence> *)
+Definition hunt_witness : list node :=
+  [ NElem (cl "presence") []
+      [ NElem (cl "priority") [] [NText (bytes_of "5")];
+        NElem (bytes_of "urn:example:ticket", bytes_of "priority") [] [NText (bytes_of "high")] ];
+    NElem (ns_sm, bytes_of "a") [at_ "h" "7"; qat "urn:example:ext" "h" "seven"] [];
+    NElem (cl "presence") []
+      [ NElem muc_x_name []
+          [ NElem (bytes_of "urn:example:ext", bytes_of "history") [at_ "seconds" "many"] [];
+            NElem history_name [at_ "maxstanzas" "20"; qat "urn:example:ext" "seconds" "all"] [] ] ] ].
+
+Theorem C02_foreign_lookalikes_ok :
+  forallb (top_ok registry) hunt_witness = true /\ List.length (pkts_of hunt_witness) = 3.
+Proof. split; vm_compute; reflexivity. Qed.
+
 (* non-vacuity: a stream whose elements contain unknown children, a nested same-named
    stanza (carbons shape), known child names below an unknown parent, a registered
    extension, an error child, white space and a comment between elements *)
@@ -340,4 +360,5 @@ Print Assumptions C02_attr_absent.
 Print Assumptions C02_unrepaired_refuted.
 Print Assumptions C02_illtyped_extension_refuted.
 Print Assumptions C02_foreign_names_ok.
+Print Assumptions C02_foreign_lookalikes_ok.
 Print Assumptions C02_failed_any_content.
